@@ -30,11 +30,30 @@ def fresh : GS Nat := do
 
 def liftG {α} (g : G α) : GS α := fun n => do let a ← g; pure (a, n)
 
+/-- parenthesised phrases that are plain text (no logical operator inside) -/
+def parenPhrases : Array String := #["(7 U.S.C. 6501)", "(on site)", "(a)", "(see part 205)", "(the Act)"]
+
 def genText : GS Str := do
   let k ← liftG (range 1 3)
   let ws ← liftG (listOf k (pickA words))
   let n ← fresh
   pure (" ".intercalate ws ++ toString n).toList
+
+/-- annotated text may itself contain parenthesised phrases (`Cex(under the Act (7 U.S.C. 6501))`) -/
+def withParenPhrase (t : Str) : GS Str := do
+  let ph := (← liftG (pickA parenPhrases)).toList
+  let r ← liftG (below 3)
+  if r = 0 then pure (ph ++ ' ' :: t)
+  else if r = 1 then pure (t ++ ' ' :: ph)
+  else
+    let w := (← liftG (pickA words)).toList
+    pure (w ++ ' ' :: ph ++ ' ' :: t)
+
+/-- a component that is a single value gets a parenthesised phrase now and then -/
+def decorateLeaf (e : Expr) : GS Expr := do
+  match e with
+  | .leaf t => if (← liftG (chance 1 5)) then pure (.leaf (← withParenPhrase t)) else pure e
+  | _ => pure e
 
 def ops3 : List Op3 := [.AND, .OR, .XOR]
 
@@ -62,6 +81,29 @@ partial def genExpr (cfg : GenCfg) (d : Nat) : GS Expr := do
   else
     pure (.comb (← liftG (pick ops3)) (← genExpr cfg (d-1)) (← genExpr cfg (d-1)))
 
+/-- parenthesised phrases inside combinations (leaf and shared texts): outside the domain on
+    which the parser keeps the text (known-finding class of C01) -/
+partial def decorateCombo : Expr → GS Expr
+  | .leaf t => do if (← liftG (chance 1 3)) then pure (.leaf (← withParenPhrase t)) else pure (.leaf t)
+  | .comb o l r => do pure (.comb o (← decorateCombo l) (← decorateCombo r))
+  | .chain o a b es => do
+    let a' ← decorateCombo a
+    let b' ← decorateCombo b
+    let mut es' := []
+    for e in es do es' := es' ++ [← decorateCombo e]
+    pure (.chain o a' b' es')
+  | .shared l e r => do
+    let l' ← match l with | some t => (do if (← liftG (chance 1 2)) then pure (some (← withParenPhrase t)) else pure (some t)) | none => pure none
+    let r' ← match r with | some t => (do if (← liftG (chance 1 2)) then pure (some (← withParenPhrase t)) else pure (some t)) | none => pure none
+    pure (.shared l' (← decorateCombo e) r')
+
+def decorateStmtCombos (s : Stmt) : G Stmt := do
+  let g : GS (List Part) := s.parts.mapM fun p => match p with
+    | .ann h outer e => do pure (.ann h outer (← decorateCombo e))
+    | q => pure q
+  let (ps, _) ← g.run 0
+  pure (.mk ps)
+
 def genHdr (cfg : GenCfg) (sym : Sym) : GS Hdr := do
   let anno ← if cfg.annos then liftG (pick [none, none, some "type=x", some "role=a,b", some "ctx=état"]) else pure none
   -- C01 domain: a suffix must not match a property; properties carry none here and Cex (the
@@ -78,7 +120,7 @@ def genSimpleParts (cfg : GenCfg) (syms : List Sym) (k : Nat) : GS (List Part) :
   for _ in [0:k] do
     let sym ← liftG (pick syms)
     let d ← liftG (range 0 cfg.maxDepth)
-    let e ← genExpr cfg d
+    let e ← decorateLeaf (← genExpr cfg d)
     let h ← genHdr cfg sym
     if cfg.fillers && (← liftG (chance 1 2)) then
       parts := (← genFiller) :: parts
@@ -122,7 +164,7 @@ partial def genStmtN (cfg : NestCfg) (depth : Nat) (allowPairs : Bool) (nsimple 
   let mut parts : List Part := []
   for sym in syms do
     let d ← liftG (range 0 cfg.exprDepth)
-    let e ← genExpr { shared := false, chains := true } d
+    let e ← decorateLeaf (← genExpr { shared := false, chains := true } d)
     parts := .ann { sym := sym } true e :: parts
   if depth > 0 then
     let m ← liftG (range 0 2)
@@ -162,7 +204,7 @@ partial def genGTree (cfg : NestCfg) (n : Nat) : GS GTree := do
     let mut parts : List Part := []
     for sym in syms do
       let d ← liftG (range 0 1)
-      let e ← genExpr { shared := false, chains := false } d
+      let e ← decorateLeaf (← genExpr { shared := false, chains := false } d)
       parts := .ann { sym := sym } true e :: parts
     pure (.grp (.mk parts.reverse))
   else
@@ -184,7 +226,7 @@ def genFlatParts (n : Nat) (exprDepth : Nat) (avoid : List Sym := []) : GS (List
   let mut parts : List Part := []
   for sym in syms do
     let d ← liftG (range 0 exprDepth)
-    let e ← genExpr { shared := false, chains := true } d
+    let e ← decorateLeaf (← genExpr { shared := false, chains := true } d)
     if (← liftG (chance 3 10)) then parts := (← genFiller) :: parts
     parts := .ann { sym := sym } true e :: parts
   pure parts.reverse
